@@ -12,6 +12,8 @@ Correspondence
 from __future__ import annotations
 
 import json
+
+import common
 import re
 import struct
 import warnings
@@ -717,7 +719,7 @@ def run(chk, replay=None):
         cases = [json.loads(open(replay).read())["case"]]
     else:
         cases = []
-        corpus = chk.case_dir.parents[2] / "corpus" / "C08"
+        corpus = common.CORPUS / "C08"
         for f in sorted(corpus.glob("*.json")):
             cases.append(json.loads(f.read_text())["case"])
         n_token, n_spec, n_builtin = (260, 120, 64) if quick else (3000, 1200, 620)
